@@ -99,6 +99,15 @@ theorem reserve_grows_eq (l : RawList) (nc : Nat) :
   try simp only [Bool.or_eq_true, Bool.and_eq_true, Bool.not_eq_true', decide_eq_true_eq, decide_eq_false_iff_not]
   all_goals omega
 
+theorem push_reserve_eq (v : RawView) : Gen.ListGuards.push_reserve v = 1 := by
+  unfold Gen.ListGuards.push_reserve; omega
+theorem push_len_add_eq (v : RawView) : Gen.ListGuards.push_len_add v = 1 := by
+  unfold Gen.ListGuards.push_len_add; omega
+theorem extend_reserve_eq (a b : RawView) : Gen.ListGuards.extend_reserve a b = b.len := by
+  unfold Gen.ListGuards.extend_reserve; omega
+theorem extend_len_add_eq (a b : RawView) : Gen.ListGuards.extend_len_add a b = b.len := by
+  unfold Gen.ListGuards.extend_len_add; omega
+
 def IsPow2 (n : Nat) : Prop := ∃ k, n = 2 ^ k
 
 /-- the representation invariant of one `RawList` with element size `sz` -/
